@@ -546,3 +546,4 @@ PROP = Prop(
                  'pool of at most four meshes; histories of bounded length'],
     subs=[Sub('history', history_body(new_state, apply), machine=machine, quick=1000, thorough=15000, steps=(12, 30))],
     design_ref='DESIGN.md section 6, C15')
+PROP.rule += ('. Added in round 2: rules keep_basis / reuse_basis (a basis object kept by the user must give the same matrices after other evaluations of the same element instance, e.g. at other points of the shape of its quadrature points) and lbasis_sequence (three point sets sharing coordinate rows in a row on one element instance).')
